@@ -209,6 +209,18 @@ pub fn oracle(f: u32, a: &Args, out: &Args) -> Option<(&'static str, String)> {
             None
         }
         403 => {
+            // C14/C03: every datagram that starts with a complete quarter stream id in range is accepted,
+            // whatever follows -- an empty payload included
+            if let Some(first) = a[0].first() {
+                let w = 1usize << (first >> 6);
+                if a[0].len() >= w {
+                    let mut v = first & 0x3f;
+                    for x in &a[0][1..w] { v = (v << 8) | *x; }
+                    if v <= (1 << 60) - 1 && out[0][0] != 1 {
+                        return Some(("C14+C03", format!("a datagram with the complete quarter stream id {} ({} bytes) and a payload of {} bytes was refused: {:?}", v, w, a[0].len() - w, out[0])));
+                    }
+                }
+            }
             if out[0][0] == 1 {
                 let q = out[0][1];
                 if q > (1 << 60) - 1 { return Some(("C11+C17", format!("quarter stream id {} out of range", q))); }
@@ -232,7 +244,7 @@ pub fn oracle(f: u32, a: &Args, out: &Args) -> Option<(&'static str, String)> {
                 let w = a2b(&out[1][..size as usize]);
                 match Datagram::read(&w) {
                     Ok(d) if d.qstream_id().into_u64() == a[0][0] && b2a(d.payload()) == a[1] => {}
-                    _ => return Some(("C03", "datagram does not round-trip".into())),
+                    _ => return Some(("C03+C14", format!("datagram (quarter id {}, {} payload bytes) does not round-trip through write and read", a[0][0], a[1].len()))),
                 }
                 if out[0][3] + a[1].len() as u64 != size { return Some(("C14", "header_size + payload != write_size".into())); }
             }
